@@ -21,7 +21,7 @@ func init() {
 				"(hopsim) inside the route loops the simulated fee conversion (AddLastSwapStepWithOrders) is guarded by a comparison of tx.GasCoin with the current hop's coin and an IsBaseCoin() test of the hop's other coin — per-hop conditions, not ones computed before the loop; (routedup) the set of pool ids that rejects a repeated pool is created before the route loop and filled inside it (each hop is priced on the untouched pool, so a repeated pool voids the limit); (tags) the amounts printed in tx.return and tx.sell_amount have the same call-result origins as an amount actually credited to / debited from tx.Sender() in the same deliver block; " +
 				"(sellall) a sell-all handler debits the sender's whole balance of the sold coin: the debited amounts have the GetBalance(tx.Sender(), coin to sell) read as an origin and the amount handed to the trade is that balance minus the commission.",
 			Assumptions: stdAssumptions,
-			Rules:       []string{"C15.limit", "C15.checkswap", "C15.tags", "C15.sellall", "C15.hopsim", "C15.routedup"},
+			Rules:       []string{"C15.limit", "C15.checkswap", "C15.tags", "C15.sellall", "C15.hopsim", "C15.routedup", "C15.compool"},
 		},
 		Run: runC15,
 	})
@@ -155,8 +155,9 @@ func blockRejects(b *ssa.BasicBlock) bool {
 }
 
 func runC15(c *core.Ctx) {
-	nLimit, nTags, nHop, nDup := 0, 0, 0, 0
+	nLimit, nTags, nHop, nDup, nCom := 0, 0, 0, 0, 0
 	for _, m := range LiveModels(c, "C15.limit") {
+		nCom += checkComPool(c, "C15.compool", m)
 		nHop += checkHopSimulation(c, "C15.hopsim", m)
 		nDup += checkRouteDuplicates(c, "C15.routedup", m)
 		_, st := structOfType(m.H.Type)
@@ -183,6 +184,7 @@ func runC15(c *core.Ctx) {
 	c.Floor("C15.limit", nLimit, 6, "live handlers with a slippage limit field")
 	c.Floor("C15.tags", nTags, 6, "result tags checked against balance changes")
 	c.Floor("C15.hopsim", nHop, 4, "simulated fee-conversion steps inside route loops")
+	c.Floor("C15.compool", nCom, 14, "simulated fee-conversion steps in live handlers")
 	c.Floor("C15.routedup", nDup, 3, "duplicate-pool membership tests in route loops")
 	checkCheckSwap(c)
 }
@@ -669,4 +671,95 @@ func sameCallOnSameRecv(a, b ssa.Value) bool {
 		return false
 	}
 	return core.Unwrap(ra) == core.Unwrap(rb)
+}
+
+// checkComPool — when the fee is converted through the very pool the transaction operates on,
+// the validation phase first applies the fee conversion to its scratch copy of that pool
+// (AddLastSwapStep…). Which way the conversion moves the pool depends on which of the pool's two
+// coins is the gas coin: the pool (P, Q) is the fee pool (gas coin, base coin) iff
+// gas == P ∧ Q is the base coin — then the step is (+fee, +fee in base) — or gas == Q ∧ P is the
+// base coin — then the step is (−fee in base, −fee). Decided for every such step of every live
+// handler: it is governed by `tx.GasCoin == X` and `Y.IsBaseCoin()` where X and Y are the two
+// different coins the scratch pool was obtained for, and the sign form of its arguments is the one
+// of that arm. An arm that tests one coin twice never fires (or fires for the wrong pool), and the
+// limit / balance checks are then made against reserves deliver will have moved.
+func checkComPool(c *core.Ctx, rule string, m *RunModel) int {
+	n := 0
+	isGas := func(v ssa.Value) bool {
+		p := core.Path(v)
+		return strings.HasSuffix(p, ".GasCoin") || strings.HasSuffix(p, ".CommissionCoin()")
+	}
+	same := func(a, b ssa.Value) bool {
+		return a != nil && b != nil && (core.Unwrap(a) == core.Unwrap(b) || core.SamePath(a, b))
+	}
+	for _, s := range core.Sites(m.Fn) {
+		mn := methodName(s)
+		if (mn != "AddLastSwapStepWithOrders" && mn != "AddLastSwapStep") || m.InDeliver(s.Block()) {
+			continue
+		}
+		n++
+		key := fmt.Sprintf("%s/fee-step#%d", m.H.TypeName, n)
+		var X, Y ssa.Value
+		for _, g := range core.GatesBefore(s.Instr) {
+			if !g.PassTrue {
+				continue
+			}
+			switch x := g.If.Cond.(type) {
+			case *ssa.BinOp:
+				if x.Op != token.EQL {
+					continue
+				}
+				a, b := x.X, x.Y
+				if isGas(b) {
+					a, b = b, a
+				}
+				if isGas(a) {
+					X = b
+				}
+			case *ssa.Call:
+				if methodNameOfCall(x) == "IsBaseCoin" && len(x.Call.Args) > 0 {
+					Y = x.Call.Args[0]
+				}
+			}
+		}
+		if X == nil || Y == nil {
+			c.Bad(rule, key, s.Pos(), "the simulated fee conversion is not governed by a comparison of the gas coin with one coin of the pool and a base-coin test of the other")
+			continue
+		}
+		if same(X, Y) {
+			c.Bad(rule, key, s.Pos(), fmt.Sprintf("the arm tests one and the same coin twice (gas coin == %s and %s.IsBaseCoin()): with the fee paid through a pool the gas coin is not the base coin, so the arm never fires and the scratch pool is checked without the fee conversion deliver performs first", core.Path(X), core.Path(Y)))
+			continue
+		}
+		// the pool the scratch copy was obtained for
+		var P, Q ssa.Value
+		for o := range callOrigins(s.Recv()) {
+			if call, ok := o.(*ssa.Call); ok && methodNameOfCall(call) == "GetSwapper" {
+				args := call.Call.Args
+				if !call.Call.IsInvoke() && len(args) > 0 {
+					args = args[1:]
+				}
+				if len(args) == 2 {
+					P, Q = args[0], args[1]
+				}
+			}
+		}
+		if P == nil {
+			c.Unk(rule, key, s.Pos(), "cannot find the GetSwapper call the scratch pool comes from")
+			continue
+		}
+		neg := func(v ssa.Value) bool {
+			call, ok := core.Unwrap(v).(*ssa.Call)
+			return ok && core.CalleeName(&call.Call) == "(*math/big.Int).Neg"
+		}
+		a0, a1 := s.Arg(0), s.Arg(1)
+		switch {
+		case same(X, P) && same(Y, Q):
+			c.Check(!neg(a0) && !neg(a1), rule, key, s.Pos(), "gas coin is the pool's first coin: step (+fee, +fee in base)", "the gas coin is the pool's first coin but the simulated step does not have the form (+fee, +fee in base coin)")
+		case same(X, Q) && same(Y, P):
+			c.Check(neg(a0) && neg(a1), rule, key, s.Pos(), "gas coin is the pool's second coin: step (−fee in base, −fee)", "the gas coin is the pool's second coin but the simulated step does not have the form (−fee in base coin, −fee)")
+		default:
+			c.Bad(rule, key, s.Pos(), fmt.Sprintf("the coins tested (gas coin == %s, %s.IsBaseCoin()) are not the two coins (%s, %s) the scratch pool was obtained for", core.Path(X), core.Path(Y), core.Path(P), core.Path(Q)))
+		}
+	}
+	return n
 }
